@@ -31,7 +31,7 @@ ASSUMPTIONS = [
     "arm, arm:thumb, m68k and mips are NOT covered: no emulator for them exists in this sandbox",
 ]
 TRUSTED = ["CPython", "Hypothesis", "vf/irsem.py", "vf/genir.py", "gcc/ld (driver and linking)", "host CPU", "vf/rv32.py (validated against llvm-mc and clang-compiled code)"]
-REGISTER = False
+REGISTER = True
 TECHNIQUE = "differential: machine code executed natively (x86_64) / in a validated emulator (riscv) vs reference IR interpreter, Hypothesis-generated IR modules"
 LEVEL_TEXT = (
     "Exploration with a differential oracle: the code generator's output for generated IR functions is executed (natively on "
